@@ -95,7 +95,7 @@ ExpandRuns(runs) == LET n == NKeysOf(runs)
 RunsOk(runs) == /\ \A r \in DOMAIN runs : runs[r][2] >= 1 /\ runs[r][1] \in 0..65535
                 /\ \A r \in 1..(Len(runs) - 1) : runs[r][1] < runs[r + 1][1]
 
-\* probes of a descriptor: [run, j, kind]
+\* probes of a descriptor, run by run:
 \*   eq  key j of the run                       gt  that key ++ <<0>> (the gap right after it)
 \*   lt  the bare 4-byte prefix of the run (sorts before the run, after everything earlier; ties with the run's prefix)
 \*   min <<>>                                   max <<255>>
@@ -105,22 +105,32 @@ ProbeBytes(runs, pr) ==
     [] pr.kind = "lt" -> PrefixOf(runs[pr.run][1])
     [] pr.kind = "min" -> <<>>
     [] pr.kind = "max" -> <<255>>
-Expected(runs, pr) ==
-  CASE pr.kind = "eq" -> <<"F", Base(runs, pr.run) + pr.j>>
-    [] pr.kind = "gt" -> <<"N", Base(runs, pr.run) + pr.j + 1>>
-    [] pr.kind = "lt" -> <<"N", Base(runs, pr.run)>>
+\* the answer as a function of the descriptor (b = Base(runs, run) = number of keys before the run)
+ExpectedAt(b, n, pr) ==
+  CASE pr.kind = "eq" -> <<"F", b + pr.j>>
+    [] pr.kind = "gt" -> <<"N", b + pr.j + 1>>
+    [] pr.kind = "lt" -> <<"N", b>>
     [] pr.kind = "min" -> <<"N", 0>>
-    [] pr.kind = "max" -> <<"N", NKeysOf(runs)>>
-DescProbes(runs) ==
-  LET perRun(r) == Flatten([j \in 1..runs[r][2] |-> <<[run |-> r, j |-> j - 1, kind |-> "eq"], [run |-> r, j |-> j - 1, kind |-> "gt"]>>])
-  IN <<[run |-> 1, j |-> 0, kind |-> "min"], [run |-> 1, j |-> 0, kind |-> "max"]>>
-     \o [r \in DOMAIN runs |-> [run |-> r, j |-> 0, kind |-> "lt"]]
-     \o Flatten([r \in DOMAIN runs |-> perRun(r)])
+    [] pr.kind = "max" -> <<"N", n>>
+Expected(runs, pr) == ExpectedAt(Base(runs, pr.run), NKeysOf(runs), pr)
+Pr(r, j, kind) == [run |-> r, j |-> j, kind |-> kind]
+\* all answers of a descriptor, grouped by run (j = 0..L-1 is position j+1 of eq / gt)
+DescAnswers(runs) ==
+  LET n == NKeysOf(runs) IN
+  [min |-> ExpectedAt(0, n, Pr(1, 0, "min")), max |-> ExpectedAt(0, n, Pr(1, 0, "max")),
+   byrun |-> [r \in DOMAIN runs |->
+                LET b == Base(runs, r) IN
+                [lt |-> ExpectedAt(b, n, Pr(r, 0, "lt")),
+                 eq |-> [j \in 1..runs[r][2] |-> ExpectedAt(b, n, Pr(r, j - 1, "eq"))],
+                 gt |-> [j \in 1..runs[r][2] |-> ExpectedAt(b, n, Pr(r, j - 1, "gt"))]]]]
+\* the descriptor formula is Search (and the plain binary search) on the expanded keys
 DescriptorAgrees(runs) ==
-  LET keys == ExpandRuns(runs) IN
-  /\ RunsOk(runs) /\ Sorted(keys)
-  /\ \A i \in DOMAIN DescProbes(runs) :
-       LET pr == DescProbes(runs)[i] IN
-       /\ Expected(runs, pr) = Search(keys, ProbeBytes(runs, pr))
-       /\ Expected(runs, pr) = BinSearch(keys, ProbeBytes(runs, pr))
+  LET keys == ExpandRuns(runs)
+      ans == DescAnswers(runs)
+      ok(pr, res) == LET p == ProbeBytes(runs, pr) IN res = Search(keys, p) /\ res = BinSearch(keys, p) /\ res = Expected(runs, pr)
+  IN /\ RunsOk(runs) /\ Sorted(keys) /\ Len(keys) = NKeysOf(runs)
+     /\ ok(Pr(1, 0, "min"), ans.min) /\ ok(Pr(1, 0, "max"), ans.max)
+     /\ \A r \in DOMAIN runs :
+          /\ ok(Pr(r, 0, "lt"), ans.byrun[r].lt)
+          /\ \A j \in 1..runs[r][2] : ok(Pr(r, j - 1, "eq"), ans.byrun[r].eq[j]) /\ ok(Pr(r, j - 1, "gt"), ans.byrun[r].gt[j])
 =============================================================================
